@@ -35,10 +35,10 @@ Fixpoint set_items (i : inst) (l : store) : sres :=
 (* the pickled state: None, a bare dict, or a sequence (tuple/list) of optional dicts *)
 Inductive pstate := SNone | SDict (d : store) | SSeq (parts : list (option store)).
 
-(* for param_dict in filter(None, state): for slot, value in param_dict.items(): object.__setattr__(..)
-   - None is not iterable                                     -> TypeError
-   - iterating a bare dict yields its keys; str has no .items -> AttributeError (nothing when empty)
-   - None and empty parts of a sequence are skipped *)
+(* if not isinstance(state, (tuple, list)): state = (state,)
+   for param_dict in filter(None, state): for slot, value in param_dict.items(): object.__setattr__(..)
+   - None and a bare dict are treated as a one-element sequence
+   - None and empty parts are skipped *)
 Fixpoint set_parts (i : inst) (parts : list (option store)) : sres :=
   match parts with
   | [] => SOk i
@@ -48,9 +48,8 @@ Fixpoint set_parts (i : inst) (parts : list (option store)) : sres :=
 
 Definition slots_setstate (i : inst) (st : pstate) : sres :=
   match st with
-  | SNone => SRaise SType
-  | SDict [] => SOk i
-  | SDict _ => SRaise SAttribute
+  | SNone => SOk i
+  | SDict d => set_items i d
   | SSeq parts => set_parts i parts
   end.
 
@@ -83,11 +82,6 @@ Definition wf_inst (i : inst) : bool :=
      | Some d => forallb (fun k => negb (mem k (i_slotnames i))) (keys d) && nodupb (keys d)
      | None => true
      end.
-
-(* the guard of the round-trip theorem: the state is not a bare non-empty dict, i.e. some slot
-   holds a value or the instance __dict__ is empty/absent *)
-Definition state_guard (i : inst) : bool :=
-  match i_slots i, dict_part i with [], Some _ => false | _, _ => true end.
 
 Definition same_store (a b : store) : Prop := forall k, assoc k a = assoc k b.
 Definition same_dict (a b : option store) : Prop :=
